@@ -8,7 +8,7 @@ static A: alloc::CountingAlloc = alloc::CountingAlloc;
 
 fn main() {
     let k = TKey::probe(1);
-    let v = TVal { tok: 0, heap: 0 };
+    let v = TVal { tok: 0, heap: 0, clone_delta: 0 };
     let overhead = lru_mem::entry_size(&k, &v);
     let c = Cache::with_hasher(0, HB::Const);
     let stride = c.verif_snapshot().stride;
